@@ -1,9 +1,9 @@
-(* C07 - lemmas about the model of rotateFile / writeLoop. *)
+(* C07 - lemmas about the model of rotateFile / writeLoop (repaired code). *)
 From HT Require Import Common.Bytes C07.Model.
-From Coq Require Import ZifyBool ZifyN ZifyNat.
+From Coq Require Import ZifyBool ZifyN ZifyNat FinFun.
 Open Scope Z_scope.
 
-(* ---- the window scan ---- *)
+(* ---- the scans ---- *)
 Lemma split_last_nl_some l : forall a b,
   split_last_nl l = Some (a, b) ->
   l = a ++ NL :: b /\ forallb (fun x => negb (x =? NL)%N) b = true.
@@ -26,34 +26,110 @@ Proof.
   destruct (x =? NL)%N eqn:Ex; [discriminate|]. cbn [forallb]. rewrite Ex. cbn. apply IH. reflexivity.
 Qed.
 
+Lemma split_first_nl_some l : forall a b,
+  split_first_nl l = Some (a, b) -> l = a ++ NL :: b /\ ~ In NL a.
+Proof.
+  induction l as [|x r IH]; intros a b H; cbn [split_first_nl] in H; [discriminate|].
+  destruct (x =? NL)%N eqn:Ex.
+  - inversion H; subst. apply N.eqb_eq in Ex; subst. split; [reflexivity|intros []].
+  - destruct (split_first_nl r) as [[a' b']|]; [|discriminate]. inversion H; subst.
+    destruct (IH a' b eq_refl) as [-> Hn]. split; [reflexivity|].
+    intros [E|Hi]; [subst; rewrite N.eqb_refl in Ex; discriminate|auto].
+Qed.
+
+Lemma split_first_nl_none l : split_first_nl l = None -> ~ In NL l.
+Proof.
+  induction l as [|x r IH]; intros H; [intros []|]. cbn [split_first_nl] in H.
+  destruct (x =? NL)%N eqn:Ex; [discriminate|].
+  destruct (split_first_nl r) as [[? ?]|]; [discriminate|].
+  intros [E|Hi]; [subst; rewrite N.eqb_refl in Ex; discriminate|exact (IH eq_refl Hi)].
+Qed.
+
+(* one window scan: p[j] is always in range under the loop condition; a found newline
+   splits p after at most j bytes *)
+Lemma window_scan_spec p j : j < zlen p ->
+  match window_scan p j with
+  | SFound a rest => p = a ++ NL :: rest /\ a <> [] /\ zlen a <= j
+  | SNone => True
+  | SOutOfRange => False
+  end.
+Proof.
+  intros Hj. unfold window_scan. destruct (j <=? 0) eqn:E0; [exact I|].
+  assert (E1 : (zlen p <=? j) = false) by lia. rewrite E1.
+  destruct p as [|x0 p']; [unfold zlen in Hj; cbn in Hj; lia|]. cbn [firstn skipn].
+  set (n := Z.to_nat j).
+  destruct (split_last_nl (firstn n p')) as [[a b]|] eqn:Es; [|exact I].
+  apply split_last_nl_some in Es as [Ew _].
+  pose proof (firstn_skipn n p') as Hfs. pose proof (firstn_le_length n p') as Hfl.
+  repeat split.
+  - rewrite <- Hfs at 1. rewrite Ew. cbn [app]. rewrite <- app_assoc. reflexivity.
+  - discriminate.
+  - rewrite Ew, app_length in Hfl. cbn [length] in Hfl. unfold zlen. cbn [length]. lia.
+Qed.
+
+(* ---- names: rotate() always finds a name that does not exist ---- *)
+Lemma taken_In s k d : taken s k d = true <-> In (s, k) (map fst d).
+Proof.
+  unfold taken. rewrite existsb_exists, in_map_iff. split.
+  - intros (e & He & H). apply andb_true_iff in H as [H1 H2].
+    apply N.eqb_eq in H1, H2. exists e. split; [|exact He]. destruct e as [[a b] c]; cbn in *. congruence.
+  - intros (e & He & Hi). exists e. split; [exact Hi|]. destruct e as [[a b] c]. cbn in *.
+    inversion He; subst. rewrite !N.eqb_refl. reflexivity.
+Qed.
+
+Lemma first_free_spec s d : forall fuel k,
+  taken s (first_free fuel s k d) d = false \/
+  (forall i, (i < fuel)%nat -> taken s (k + N.of_nat i)%N d = true).
+Proof.
+  induction fuel as [|f IH]; intros k; cbn [first_free]; [right; intros i Hi; lia|].
+  destruct (taken s k d) eqn:E; [|left; exact E].
+  destruct (IH (k + 1)%N) as [H|H]; [left; exact H|right].
+  intros i Hi. destruct i as [|i]; [replace (k + N.of_nat 0)%N with k by lia; exact E|].
+  replace (k + N.of_nat (S i))%N with (k + 1 + N.of_nat i)%N by lia. apply H. lia.
+Qed.
+
+Lemma free_k_fresh s d : ~ In (s, free_k s d) (map fst d).
+Proof.
+  unfold free_k. destruct (first_free_spec s d (S (length d)) 0%N) as [H|H].
+  - intros Hi. apply taken_In in Hi. congruence.
+  - exfalso.
+    set (l := map (fun i => (s, N.of_nat i)) (seq 0 (S (length d)))).
+    assert (Hnd : NoDup l).
+    { apply Injective_map_NoDup; [|apply seq_NoDup]. intros a b E. inversion E. lia. }
+    assert (Hincl : incl l (map fst d)).
+    { intros x Hx. unfold l in Hx. apply in_map_iff in Hx as (i & <- & Hi). apply in_seq in Hi.
+      apply taken_In. specialize (H i ltac:(lia)). replace (0 + N.of_nat i)%N with (N.of_nat i) in H by lia. exact H. }
+    pose proof (NoDup_incl_length Hnd Hincl) as Hlen.
+    unfold l in Hlen. rewrite !map_length, seq_length in Hlen. lia.
+Qed.
+
 (* ---- invariants ---- *)
 (* between calls: pos is the length of the file whenever it exists *)
 Definition rinv (st : rf) : Prop :=
   (rf_exists st = true -> rf_pos st = zlen (rf_cur st)) /\
-  (rf_exists st = false -> rf_cur st = []) /\
-  0 <= rf_pos st <= rf_max st.
+  (rf_exists st = false -> rf_cur st = []).
 
 (* inside Write after the Stat/reopen step *)
-Definition winv (st : rf) : Prop :=
-  rf_exists st = true /\ rf_pos st = zlen (rf_cur st) /\ 0 <= rf_pos st <= rf_max st.
+Definition winv (st : rf) : Prop := rf_exists st = true /\ rf_pos st = zlen (rf_cur st).
 
-(* the directory of rotated files is the replay of the rename history *)
-Definition replay (hs : list hent) (d : list (N * bytes)) : list (N * bytes) :=
-  fold_left (fun d e => rot_set (h_sec e) (h_content e) d) hs d.
+(* a file is at most max bytes long unless it is one single (unterminated) line *)
+Definition fits (max : Z) (c : bytes) : Prop := zlen c <= max \/ ~ In NL c.
 
-Definition hent_ok (max : Z) (e : hent) : Prop :=
-  zlen (h_content e) <= max /\
-  match h_kind e with
-  | RSplit => h_skipped e = [NL]
-  | RDrop => exists x, h_skipped e = [x]
-  | ROpen => h_skipped e = []
-  end.
+Definition aligned (b : bytes) : Prop := b = [] \/ exists b0, b = b0 ++ [NL].
+
+(* a file left <path> at a line boundary: either the loop skipped the newline that ends its last
+   line, or nothing was skipped and the file ends with a newline (or is empty) *)
+Definition ent_fine (e : hent) : Prop :=
+  h_skipped e = [NL] \/ (h_skipped e = [] /\ aligned (h_content e)).
+
+Definition loop_kind (e : hent) : Prop :=
+  h_kind e = RSplit \/ h_kind e = RFresh \/ h_kind e = RLong.
 
 Lemma hist_stream_app a b : hist_stream (a ++ b) = hist_stream a ++ hist_stream b.
 Proof. unfold hist_stream. rewrite map_app, concat_app. reflexivity. Qed.
 
-Lemma replay_app a b d : replay (a ++ b) d = replay b (replay a d).
-Proof. unfold replay. apply fold_left_app. Qed.
+Lemma zlen0_nil {A} (l : list A) : zlen l = 0 -> l = [].
+Proof. destruct l; [reflexivity|]. unfold zlen; cbn; lia. Qed.
 
 (* ---- one call of Write ---- *)
 Record write_post (clk : nat -> N) (i : nat) (st st' : rf) (p : bytes) (hs : list hent) : Prop := {
@@ -62,774 +138,141 @@ Record write_post (clk : nat -> N) (i : nat) (st st' : rf) (p : bytes) (hs : lis
   wp_moved : rf_moved st' = rf_moved st;
   wp_gone : rf_gone st' = rf_gone st;
   wp_hist : rf_hist st' = rf_hist st ++ hs;
-  wp_rot : rf_rot st' = replay hs (rf_rot st);
+  wp_rot : rf_rot st' = rf_rot st ++ hist_files hs;
   wp_stream : hist_stream hs ++ rf_cur st' = rf_cur st ++ p;
-  wp_ok : Forall (hent_ok (rf_max st)) hs;
-  wp_kind : Forall (fun e => h_kind e <> ROpen) hs;
+  wp_fits : fits (rf_max st) (rf_cur st) ->
+            Forall (fun e => fits (rf_max st) (h_content e)) hs /\ fits (rf_max st) (rf_cur st');
+  wp_fine : aligned (rf_cur st) -> Forall ent_fine hs;
+  wp_kind : Forall loop_kind hs;
   wp_secs : map h_sec hs = map clk (seq i (length hs));
-  wp_norot : hs = [] -> rf_cur st' = rf_cur st ++ p
+  wp_nodup : NoDup (map fst (rf_rot st)) -> NoDup (map fst (rf_rot st'))
 }.
 
+Lemma NoDup_snoc {A} (l : list A) x : NoDup l -> ~ In x l -> NoDup (l ++ [x]).
+Proof.
+  induction l as [|y l IH]; intros Hn Hx; cbn; [constructor; [intros []|constructor]|].
+  inversion Hn; subst. constructor.
+  - rewrite in_app_iff. cbn. intros [H|[H|[]]]; [auto|subst; apply Hx; left; reflexivity].
+  - apply IH; [assumption|intros H; apply Hx; right; exact H].
+Qed.
+
+Lemma rotate_nodup s sk kd st :
+  NoDup (map fst (rf_rot st)) -> NoDup (map fst (rf_rot (rotate s sk kd st))).
+Proof.
+  intros H. cbn [rotate rf_rot]. rewrite map_app. cbn [map fst].
+  apply NoDup_snoc; [exact H|apply free_k_fresh].
+Qed.
+
+Definition measure (st : rf) (p : bytes) : nat :=
+  (2 * length p + (if (0 <? rf_pos st)%Z then 1 else 0))%nat.
+
+Lemma fits_nil max : fits max [].
+Proof. right. intros []. Qed.
+
+Lemma aligned_nil : aligned [].
+Proof. left. reflexivity. Qed.
+
+(* the loop exits: final write *)
+Lemma final_post clk i st p :
+  winv st ->
+  (rf_pos st + zlen p <= rf_max st \/ (rf_cur st = [] /\ ~ In NL p)) ->
+  write_post clk i st (set_pos (put st p) (rf_pos st + zlen p)) p [].
+Proof.
+  intros (Hex & Hpos) Hc. constructor; cbn; auto.
+  - unfold winv. cbn. rewrite zlen_app. split; [exact Hex|lia].
+  - rewrite app_nil_r. reflexivity.
+  - rewrite app_nil_r. reflexivity.
+  - intros _. split; [constructor|]. destruct Hc as [Hc|[Hc Hn]].
+    + left. rewrite zlen_app. lia.
+    + right. rewrite Hc. exact Hn.
+Qed.
+
+(* one iteration that rotates: [a] is appended to the file, the file is rotated, [sk] is
+   skipped, the loop goes on with [p1] *)
+Lemma post_cons clk i st st0 st' a sk kd p1 hs p :
+  rf_max st0 = rf_max st -> rf_moved st0 = rf_moved st -> rf_gone st0 = rf_gone st ->
+  rf_hist st0 = rf_hist st -> rf_rot st0 = rf_rot st -> rf_cur st0 = rf_cur st ++ a ->
+  p = a ++ sk ++ p1 ->
+  (fits (rf_max st) (rf_cur st) -> fits (rf_max st) (rf_cur st ++ a)) ->
+  (aligned (rf_cur st) -> ent_fine (mkH (clk i) (free_k (clk i) (rf_rot st)) (rf_cur st ++ a) sk kd)) ->
+  (kd = RSplit \/ kd = RFresh \/ kd = RLong) ->
+  write_post clk (S i) (rotate (clk i) sk kd st0) st' p1 hs ->
+  write_post clk i st st' p (mkH (clk i) (free_k (clk i) (rf_rot st)) (rf_cur st ++ a) sk kd :: hs).
+Proof.
+  intros Em Emv Eg Eh Er Ec Ep Hfit Hfine Hkd Hp. destruct Hp.
+  cbn [rotate rf_max rf_moved rf_gone rf_hist rf_rot rf_cur] in *.
+  rewrite Em, ?Emv, ?Eg, ?Eh, ?Er, ?Ec in *.
+  constructor.
+  - exact wp_inv0.
+  - exact wp_max0.
+  - exact wp_moved0.
+  - exact wp_gone0.
+  - rewrite wp_hist0, <- app_assoc. reflexivity.
+  - rewrite wp_rot0, <- app_assoc. reflexivity.
+  - unfold hist_stream in *. cbn [map concat h_content h_skipped].
+    rewrite <- !app_assoc. rewrite wp_stream0. cbn [app]. rewrite Ep, <- !app_assoc. reflexivity.
+  - intros Hf. destruct (wp_fits0 (fits_nil _)) as [F1 F2]. split; [|exact F2].
+    constructor; [apply Hfit, Hf|exact F1].
+  - intros Ha. constructor; [apply Hfine, Ha|apply wp_fine0, aligned_nil].
+  - constructor; [exact Hkd|exact wp_kind0].
+  - cbn [map length seq h_sec]. rewrite wp_secs0. reflexivity.
+  - intros Hn. apply wp_nodup0. rewrite map_app. cbn [map fst].
+    apply NoDup_snoc; [exact Hn|apply free_k_fresh].
+Qed.
+
 Lemma write_loop_ok clk : forall fuel i st p w,
-  winv st -> (length p < fuel)%nat ->
+  winv st -> (measure st p < fuel)%nat ->
   exists st' hs, write_loop fuel clk i st p w = WOk st' (w + zlen p) /\ write_post clk i st st' p hs.
 Proof.
   induction fuel as [|f IH]; intros i st p w Hinv Hf; [lia|].
-  destruct Hinv as (Hex & Hpos & Hlo & Hhi).
+  pose proof Hinv as (Hex & Hpos).
   cbn [write_loop].
   destruct (rf_pos st + zlen p >? rf_max st) eqn:Hc.
-  - (* one iteration *)
-    assert (Hj : (rf_max st - rf_pos st <? 0) = false) by lia. rewrite Hj.
-    destruct p as [|x0 p']; [unfold zlen in Hc; cbn [length] in Hc; lia|].
-    cbn [firstn skipn].
-    set (n := Z.to_nat (rf_max st - rf_pos st)).
-    pose proof (firstn_skipn n p') as Hfs.
-    pose proof (firstn_le_length n p') as Hfl.
-    destruct (split_last_nl (firstn n p')) as [[a b]|] eqn:Es.
-    + apply split_last_nl_some in Es as [Ew _].
-      assert (Hlen : length p' = (length a + 1 + length b + length (skipn n p'))%nat).
-      { rewrite <- Hfs at 1. rewrite Ew, !app_length. cbn [length]. lia. }
-      assert (Ha : (length a + 1 <= n)%nat).
-      { rewrite Ew, app_length in Hfl. cbn [length] in Hfl. lia. }
-      set (st1 := rotate (clk i) [NL] RSplit (put st (x0 :: a))).
-      assert (Hinv1 : winv st1) by (unfold winv, st1; cbn; unfold zlen; cbn; lia).
-      destruct (IH (S i) st1 (b ++ skipn n p') (w + zlen (x0 :: a) + 1) Hinv1) as (st' & hs & Hr & Hp).
-      { rewrite app_length. cbn [length] in Hf. lia. }
-      exists st', (mkH (clk i) (rf_cur st ++ x0 :: a) [NL] RSplit :: hs). split.
-      * rewrite Hr. f_equal. unfold zlen. cbn [length]. rewrite app_length. lia.
-      * destruct Hp. constructor.
-        -- exact wp_inv0.
-        -- rewrite wp_max0. reflexivity.
-        -- rewrite wp_moved0. reflexivity.
-        -- rewrite wp_gone0. reflexivity.
-        -- rewrite wp_hist0. unfold st1. cbn. rewrite <- app_assoc. reflexivity.
-        -- rewrite wp_rot0. reflexivity.
-        -- unfold hist_stream in *. cbn [map concat h_content h_skipped].
-           rewrite <- !app_assoc. rewrite wp_stream0. unfold st1. cbn [rf_cur rotate app].
-           rewrite <- Hfs at 2. rewrite Ew. rewrite <- !app_assoc. reflexivity.
-        -- constructor; [|exact wp_ok0]. split; [|reflexivity]. cbn [h_content].
-           unfold zlen in *. rewrite app_length. cbn [length]. lia.
-        -- constructor; [cbn; discriminate|exact wp_kind0].
-        -- cbn [map length seq h_sec]. rewrite wp_secs0. reflexivity.
-        -- discriminate.
-    + set (st1 := rotate (clk i) [x0] RDrop st).
-      assert (Hinv1 : winv st1) by (unfold winv, st1; cbn; unfold zlen; cbn; lia).
-      rewrite Hfs.
-      destruct (IH (S i) st1 p' (w + 1) Hinv1) as (st' & hs & Hr & Hp).
-      { cbn [length] in Hf. lia. }
-      exists st', (mkH (clk i) (rf_cur st) [x0] RDrop :: hs). split.
-      * rewrite Hr. f_equal. unfold zlen. cbn [length]. lia.
-      * destruct Hp. constructor.
-        -- exact wp_inv0.
-        -- rewrite wp_max0. reflexivity.
-        -- rewrite wp_moved0. reflexivity.
-        -- rewrite wp_gone0. reflexivity.
-        -- rewrite wp_hist0. unfold st1. cbn. rewrite <- app_assoc. reflexivity.
-        -- rewrite wp_rot0. reflexivity.
-        -- unfold hist_stream in *. cbn [map concat h_content h_skipped].
-           rewrite <- !app_assoc. rewrite wp_stream0. reflexivity.
-        -- constructor; [|exact wp_ok0]. split; [cbn [h_content]; lia|]. cbn. eauto.
-        -- constructor; [cbn; discriminate|exact wp_kind0].
-        -- cbn [map length seq h_sec]. rewrite wp_secs0. reflexivity.
-        -- discriminate.
-  - (* fits *)
-    exists (set_pos (put st p) (rf_pos st + zlen p)), []. split; [reflexivity|].
-    constructor; cbn; auto.
-    + unfold winv. cbn. rewrite zlen_app. pose proof (zlen_nonneg p). lia.
-    + rewrite app_nil_r. reflexivity.
-Qed.
-
-Definition after_stat (st : rf) : rf := if rf_exists st then st else reopen st.
-
-Lemma after_stat_winv st : rinv st -> winv (after_stat st) /\ rf_cur (after_stat st) = rf_cur st.
-Proof.
-  intros (H1 & H2 & H3). unfold after_stat, winv. destruct (rf_exists st) eqn:E.
-  - split; [|reflexivity]. rewrite E. auto.
-  - cbn. rewrite (H2 eq_refl). split; [|reflexivity]. unfold zlen; cbn. lia.
-Qed.
-
-Lemma winv_rinv st : winv st -> rinv st.
-Proof. intros (H1 & H2 & H3). unfold rinv. rewrite H1. repeat split; auto; try discriminate; lia. Qed.
-
-Lemma rf_write_ok clk st p :
-  rinv st ->
-  exists st' hs, rf_write clk st p = WOk st' (zlen p) /\ write_post clk 0 (after_stat st) st' p hs.
-Proof.
-  intros Hinv. destruct (after_stat_winv st Hinv) as [Hw _].
-  destruct (write_loop_ok clk (S (length p)) 0%nat (after_stat st) p 0 Hw) as (st' & hs & Hr & Hp); [lia|].
-  exists st', hs. split; [|exact Hp]. unfold rf_write. fold (after_stat st). rewrite Hr. reflexivity.
-Qed.
-
-Lemma after_stat_fields st :
-  rf_max (after_stat st) = rf_max st /\ rf_moved (after_stat st) = rf_moved st /\
-  rf_gone (after_stat st) = rf_gone st /\ rf_hist (after_stat st) = rf_hist st /\
-  rf_rot (after_stat st) = rf_rot st.
-Proof. unfold after_stat. destruct (rf_exists st); cbn; auto. Qed.
-
-(* ---- whole histories ---- *)
-Definition files_le (max : Z) (st : rf) : Prop :=
-  zlen (rf_cur st) <= max /\
-  Forall (fun e => zlen (h_content e) <= max) (rf_hist st) /\
-  Forall (fun c => zlen c <= max) (rf_moved st) /\
-  Forall (fun c => zlen c <= max) (rf_gone st).
-
-(* global invariant *)
-Record ginv (max : Z) (st : rf) : Prop := {
-  g_rinv : rinv st;
-  g_max : rf_max st = max;
-  g_rot : rf_rot st = replay (rf_hist st) [];
-  g_ok : Forall (fun e => match h_kind e with
-                          | RSplit => h_skipped e = [NL]
-                          | RDrop => exists x, h_skipped e = [x]
-                          | ROpen => h_skipped e = []
-                          end) (rf_hist st)
-}.
-
-Lemma cur_le st : rinv st -> zlen (rf_cur st) <= rf_max st.
-Proof.
-  intros (H1 & H2 & H3). destruct (rf_exists st) eqn:E.
-  - rewrite <- (H1 eq_refl). lia.
-  - rewrite (H2 eq_refl). unfold zlen; cbn. lia.
-Qed.
-
-Lemma hent_ok_kind max e : hent_ok max e ->
-  match h_kind e with RSplit => h_skipped e = [NL] | RDrop => exists x, h_skipped e = [x] | ROpen => h_skipped e = [] end.
-Proof. intros [_ H]. exact H. Qed.
-
-Lemma hent_ok_le max e : hent_ok max e -> zlen (h_content e) <= max.
-Proof. intros [H _]. exact H. Qed.
-
-Lemma ginv_write max clk st p :
-  ginv max st ->
-  exists st' hs, rf_write clk st p = WOk st' (zlen p) /\ ginv max st' /\
-                 write_post clk 0 (after_stat st) st' p hs.
-Proof.
-  intros G. destruct (rf_write_ok clk st p (g_rinv _ _ G)) as (st' & hs & Hr & Hp).
-  exists st', hs. split; [exact Hr|]. split; [|exact Hp].
-  destruct (after_stat_fields st) as (F1 & F2 & F3 & F4 & F5). destruct Hp.
-  constructor.
-  - apply winv_rinv. exact wp_inv0.
-  - rewrite wp_max0, F1. apply (g_max _ _ G).
-  - rewrite wp_rot0, wp_hist0, F5, F4, replay_app, <- (g_rot _ _ G). reflexivity.
-  - rewrite wp_hist0, F4. apply Forall_app. split; [apply (g_ok _ _ G)|].
-    eapply Forall_impl; [|exact wp_ok0]. intros e. apply hent_ok_kind.
-Qed.
-
-Definition kinds_ok (h : list hent) : Prop :=
-  Forall (fun e => match h_kind e with
-                   | RSplit => h_skipped e = [NL]
-                   | RDrop => exists x, h_skipped e = [x]
-                   | ROpen => h_skipped e = []
-                   end) h.
-
-Lemma reopen_ginv max s st : 0 <= max ->
-  rf_max st = max -> rf_rot st = replay (rf_hist st) [] -> kinds_ok (rf_hist st) ->
-  ginv max (rf_reopen s st).
-Proof.
-  intros Hm Gm Gr Gk. unfold rf_reopen. cbn [rf_pos rf_max].
-  pose proof (zlen_nonneg (rf_cur st)).
-  destruct (zlen (rf_cur st) <? rf_max st) eqn:E.
-  - constructor; cbn; auto. unfold rinv; cbn. repeat split; auto; try discriminate; lia.
-  - constructor; cbn; auto.
-    + unfold rinv; cbn. unfold zlen; cbn. repeat split; auto; try discriminate; lia.
-    + rewrite replay_app, <- Gr. reflexivity.
-    + apply Forall_app. split; [exact Gk|]. constructor; [reflexivity|constructor].
-Qed.
-
-Lemma ginv_reopen max s st : 0 <= max -> ginv max st -> ginv max (rf_reopen s st).
-Proof. intros Hm G. apply reopen_ginv; auto; apply G. Qed.
-
-Lemma ginv_remove max st : ginv max st -> ginv max (ext_remove st).
-Proof.
-  intros G. unfold ext_remove. destruct (rf_exists st) eqn:E; [|exact G].
-  constructor; cbn; try apply G. destruct (g_rinv _ _ G) as (H1 & H2 & H3).
-  unfold rinv; cbn. repeat split; auto; try discriminate; lia.
-Qed.
-
-Lemma ginv_move max st : ginv max st -> ginv max (ext_move st).
-Proof.
-  intros G. unfold ext_move. destruct (rf_exists st) eqn:E; [|exact G].
-  constructor; cbn; try apply G. destruct (g_rinv _ _ G) as (H1 & H2 & H3).
-  unfold rinv; cbn. repeat split; auto; try discriminate; lia.
-Qed.
-
-Lemma ginv_open max s init : 0 <= max -> ginv max (rf_open max s init).
-Proof. intros Hm. unfold rf_open. apply reopen_ginv; cbn; auto. constructor. Qed.
-
-Fixpoint written_lens (ops : list op) : list Z :=
-  match ops with
-  | [] => []
-  | OWrite _ p :: r => zlen p :: written_lens r
-  | _ :: r => written_lens r
-  end.
-
-(* Write never panics, never runs out of fuel, reports len(p); the invariant is kept *)
-Lemma run_total max : 0 <= max -> forall ops st rets,
-  ginv max st ->
-  exists st', run st rets ops = Some (st', rets ++ written_lens ops) /\ ginv max st'.
-Proof.
-  intros Hm. induction ops as [|o r IH]; intros st rets G; cbn [run written_lens].
-  - exists st. rewrite app_nil_r. auto.
-  - destruct o as [clk p| | |s].
-    + destruct (ginv_write max clk st p G) as (st' & hs & Hr & G' & _). rewrite Hr.
-      destruct (IH st' (rets ++ [zlen p]) G') as (st'' & Hrun & G'').
-      exists st''. rewrite Hrun, <- app_assoc. auto.
-    + apply IH, ginv_remove, G.
-    + apply IH, ginv_move, G.
-    + apply IH, ginv_reopen; auto.
-Qed.
-
-(* ---- size bound ---- *)
-Lemma files_le_write max clk st st' p hs :
-  rf_max st = max -> files_le max st -> write_post clk 0 (after_stat st) st' p hs -> files_le max st'.
-Proof.
-  intros Hm (F1 & F2 & F3 & F4) Hp. destruct (after_stat_fields st) as (A1 & A2 & A3 & A4 & A5).
-  destruct Hp. unfold files_le. repeat split.
-  - pose proof (cur_le st' (winv_rinv _ wp_inv0)). lia.
-  - rewrite wp_hist0, A4. apply Forall_app. split; [exact F2|].
-    eapply Forall_impl; [|exact wp_ok0]. intros e He. apply hent_ok_le in He. lia.
-  - rewrite wp_moved0, A2. exact F3.
-  - rewrite wp_gone0, A3. exact F4.
-Qed.
-
-Lemma files_le_reopen max s st : 0 <= max -> files_le max st -> files_le max (rf_reopen s st).
-Proof.
-  intros Hm (F1 & F2 & F3 & F4). unfold rf_reopen. cbn [rf_pos rf_max].
-  destruct (zlen (rf_cur st) <? rf_max st); unfold files_le; cbn; repeat split; auto.
-  apply Forall_app. split; [exact F2|]. constructor; [exact F1|constructor].
-Qed.
-
-Lemma files_le_remove max st : 0 <= max -> files_le max st -> files_le max (ext_remove st).
-Proof.
-  intros Hm (F1 & F2 & F3 & F4). unfold ext_remove. destruct (rf_exists st); [|repeat split; auto].
-  unfold files_le; cbn. repeat split; auto. apply Forall_app. split; [exact F4|]. constructor; [exact F1|constructor].
-Qed.
-
-Lemma files_le_move max st : 0 <= max -> files_le max st -> files_le max (ext_move st).
-Proof.
-  intros Hm (F1 & F2 & F3 & F4). unfold ext_move. destruct (rf_exists st); [|repeat split; auto].
-  unfold files_le; cbn. repeat split; auto. apply Forall_app. split; [exact F3|]. constructor; [exact F1|constructor].
-Qed.
-
-Lemma run_files_le max : 0 <= max -> forall ops st rets st' rets',
-  ginv max st -> files_le max st -> run st rets ops = Some (st', rets') -> files_le max st'.
-Proof.
-  intros Hm. induction ops as [|o r IH]; intros st rets st' rets' G F H; cbn [run] in H.
-  - inversion H; subst. exact F.
-  - destruct o as [clk p| | |s].
-    + destruct (ginv_write max clk st p G) as (st1 & hs & Hr & G1 & Hp). rewrite Hr in H.
-      eapply IH; [exact G1| |exact H]. eapply files_le_write; [apply G|exact F|exact Hp].
-    + eapply IH; [apply ginv_remove, G|apply files_le_remove; auto|exact H].
-    + eapply IH; [apply ginv_move, G|apply files_le_move; auto|exact H].
-    + eapply IH; [apply ginv_reopen; [exact Hm|exact G]|apply files_le_reopen; [exact Hm|exact F]|exact H].
-Qed.
-
-(* what is in the directory came from the history *)
-Lemma in_rot_set s c d x : In x (rot_set s c d) -> x = (s, c) \/ In x d.
-Proof.
-  unfold rot_set. intros H. apply in_app_or in H as [H|[H|[]]]; [|auto].
-  apply filter_In in H as [H _]. auto.
-Qed.
-
-Lemma in_replay hs : forall d x, In x (replay hs d) ->
-  In x d \/ exists e, In e hs /\ x = (h_sec e, h_content e).
-Proof.
-  induction hs as [|e hs IH]; intros d x H; cbn in H; [auto|].
-  apply IH in H as [H|(e' & He & ->)].
-  - apply in_rot_set in H as [->|H]; [right; exists e; cbn; auto|auto].
-  - right. exists e'. cbn. auto.
-Qed.
-
-Lemma open_files_le max s init : 0 <= max -> zlen init <= max -> files_le max (rf_open max s init).
-Proof.
-  intros Hm Hi. unfold rf_open. apply files_le_reopen; [exact Hm|]. unfold files_le; cbn. repeat split; auto.
-Qed.
-
-Lemma size_bound max s init ops st rets :
-  0 <= max -> zlen init <= max ->
-  run (rf_open max s init) [] ops = Some (st, rets) ->
-  zlen (rf_cur st) <= max /\
-  (forall x, In x (rf_rot st) -> zlen (snd x) <= max) /\
-  Forall (fun c => zlen c <= max) (rf_moved st) /\
-  Forall (fun c => zlen c <= max) (rf_gone st).
-Proof.
-  intros Hm Hi H.
-  destruct (run_total max Hm ops _ [] (ginv_open max s init Hm)) as (st' & Hrun & G).
-  rewrite H in Hrun. inversion Hrun; subst st'.
-  pose proof (run_files_le max Hm ops _ _ _ _ (ginv_open max s init Hm) (open_files_le max s init Hm Hi) H) as (F1 & F2 & F3 & F4).
-  repeat split; auto. intros x Hx. rewrite (g_rot _ _ G) in Hx.
-  apply in_replay in Hx as [[]|(e & He & ->)]. cbn. rewrite Forall_forall in F2. apply F2, He.
-Qed.
-
-(* ---- byte accounting: nothing handed to Write disappears except the skipped bytes ---- *)
-Lemma run_stream max : 0 <= max -> forall ops st rets st' rets',
-  ginv max st -> rf_exists st = true -> no_ext ops = true ->
-  run st rets ops = Some (st', rets') ->
-  rf_exists st' = true /\
-  hist_stream (rf_hist st') ++ rf_cur st' = hist_stream (rf_hist st) ++ rf_cur st ++ written_of ops.
-Proof.
-  intros Hm. induction ops as [|o r IH]; intros st rets st' rets' G Ex Hn H; cbn [run written_of] in *.
-  - inversion H; subst. rewrite app_nil_r. auto.
-  - destruct o as [clk p| | |s]; cbn [no_ext forallb] in Hn; try discriminate.
-    + destruct (ginv_write max clk st p G) as (st1 & hs & Hr & G1 & Hp). rewrite Hr in H.
-      assert (Ea : after_stat st = st) by (unfold after_stat; rewrite Ex; reflexivity).
-      rewrite Ea in Hp. destruct Hp. destruct wp_inv0 as (Ex1 & _).
-      destruct (IH st1 _ _ _ G1 Ex1 Hn H) as (E' & S'). split; [exact E'|].
-      rewrite S', wp_hist0, hist_stream_app, <- !app_assoc. f_equal.
-      rewrite (app_assoc (hist_stream hs)), wp_stream0, <- app_assoc. reflexivity.
-    + assert (Ex1 : rf_exists (rf_reopen s st) = true)
-        by (unfold rf_reopen; cbn [rf_pos rf_max]; destruct (_ <? _); reflexivity).
-      destruct (IH _ _ _ _ (ginv_reopen max s st Hm G) Ex1 Hn H) as (E' & S'). split; [exact E'|].
-      rewrite S'. unfold rf_reopen. cbn [rf_pos rf_max]. destruct (_ <? _); cbn [rf_hist rf_cur rotate]; [reflexivity|].
-      rewrite hist_stream_app. unfold hist_stream at 2. cbn. rewrite !app_nil_r, <- app_assoc. reflexivity.
-Qed.
-
-Lemma open_stream max s init :
-  rf_exists (rf_open max s init) = true /\
-  hist_stream (rf_hist (rf_open max s init)) ++ rf_cur (rf_open max s init) = init.
-Proof.
-  unfold rf_open, rf_reopen. cbn [rf_pos rf_max rf_cur]. destruct (_ <? _); cbn; [auto|].
-  unfold hist_stream; cbn. rewrite !app_nil_r. auto.
-Qed.
-
-Lemma bytes_accounted max s init ops st rets :
-  0 <= max -> no_ext ops = true ->
-  run (rf_open max s init) [] ops = Some (st, rets) ->
-  hist_stream (rf_hist st) ++ rf_cur st = init ++ written_of ops.
-Proof.
-  intros Hm Hn H. destruct (open_stream max s init) as [Ex S0].
-  destruct (run_stream max Hm ops _ _ _ _ (ginv_open max s init Hm) Ex Hn H) as [_ S].
-  rewrite S, app_assoc, S0. reflexivity.
-Qed.
-
-(* ---- distinct seconds: nothing in the directory is ever replaced ---- *)
-Lemma existsb_eqb_false x l : existsb (N.eqb x) l = false -> ~ In x l.
-Proof.
-  induction l as [|y l IH]; cbn; [tauto|]. intros H [->|Hi].
-  - rewrite N.eqb_refl in H. discriminate.
-  - apply orb_false_iff in H as [_ H]. exact (IH H Hi).
-Qed.
-
-Lemma nodup_b_NoDup l : nodup_b l = true -> NoDup l.
-Proof.
-  induction l as [|x l IH]; cbn; [constructor|]. intros H. apply andb_true_iff in H as [H1 H2].
-  constructor; [apply existsb_eqb_false; destruct (existsb _ l); [discriminate|reflexivity]|auto].
-Qed.
-
-Lemma filter_keep_all s (d : list (N * bytes)) :
-  ~ In s (map fst d) -> filter (fun e => negb (fst e =? s)%N) d = d.
-Proof.
-  induction d as [|x d IH]; cbn; [reflexivity|]. intros H.
-  destruct (fst x =? s)%N eqn:E; [apply N.eqb_eq in E; tauto|]. cbn. f_equal. apply IH. tauto.
-Qed.
-
-Lemma replay_distinct hs : forall d,
-  (forall e, In e hs -> ~ In (h_sec e) (map fst d)) -> NoDup (map h_sec hs) ->
-  replay hs d = d ++ hist_files hs.
-Proof.
-  induction hs as [|e hs IH]; intros d Hd Hn; cbn; [rewrite app_nil_r; reflexivity|].
-  inversion Hn as [|? ? Hnot Hn']; subst.
-  unfold rot_set. rewrite filter_keep_all by (apply Hd; cbn; auto).
-  change (fold_left _ hs ?x) with (replay hs x). rewrite IH; auto.
-  - rewrite <- app_assoc. reflexivity.
-  - intros e' He'. rewrite map_app, in_app_iff. cbn. intros [Hi|[Hi|[]]].
-    + exact (Hd e' (or_intror He') Hi).
-    + apply Hnot. rewrite Hi. apply in_map, He'.
-Qed.
-
-Lemma rot_is_history max st :
-  ginv max st -> secs_distinct (rf_hist st) = true -> rf_rot st = hist_files (rf_hist st).
-Proof.
-  intros G Hd. rewrite (g_rot _ _ G). rewrite replay_distinct; [reflexivity|intros ? ? []|].
-  apply nodup_b_NoDup, Hd.
-Qed.
-
-(* no rotation dropped a byte: every skipped byte string is the newline (or nothing, at open) *)
-Lemma no_drop_skipped max st :
-  ginv max st -> has_drop (rf_hist st) = false ->
-  Forall (fun e => (h_kind e = RSplit /\ h_skipped e = [NL]) \/ (h_kind e = ROpen /\ h_skipped e = [])) (rf_hist st).
-Proof.
-  intros G Hd. pose proof (g_ok _ _ G) as Hk. unfold has_drop in Hd.
-  induction (rf_hist st) as [|e h IH]; [constructor|].
-  inversion Hk; subst. cbn [existsb] in Hd. apply orb_false_iff in Hd as [He Hh].
-  constructor; [|auto]. unfold is_drop in He. destruct (h_kind e); [left|discriminate|right]; auto.
-Qed.
-
-(* ---- lines ---- *)
-Lemma lines_of_nil_inv b : lines_of b = [] -> b = [].
-Proof.
-  destruct b as [|x r]; [reflexivity|]. cbn [lines_of].
-  destruct (x =? NL)%N; [discriminate|]. destruct (lines_of r); discriminate.
-Qed.
-
-(* a newline ends a line whatever follows *)
-Lemma lines_of_cut c : forall r, lines_of (c ++ NL :: r) = lines_of (c ++ [NL]) ++ lines_of r.
-Proof.
-  induction c as [|x c IH]; intros r; [reflexivity|]. cbn [app lines_of].
-  destruct (x =? NL)%N; [rewrite IH; reflexivity|]. rewrite IH.
-  destruct (lines_of (c ++ [NL])) as [|l ls] eqn:E; [|reflexivity].
-  apply lines_of_nil_inv in E. destruct c; discriminate.
-Qed.
-
-(* a file whose last line lacks the terminator has the same lines *)
-Lemma lines_of_unterminated c : c <> [] -> last c 0%N <> NL -> lines_of (c ++ [NL]) = lines_of c.
-Proof.
-  induction c as [|x c IH]; intros Hne Hl; [congruence|]. destruct c as [|y c].
-  - cbn in Hl. cbn [app lines_of]. destruct (x =? NL)%N eqn:E; [apply N.eqb_eq in E; congruence|]. reflexivity.
-  - assert (IH' : lines_of ((y :: c) ++ [NL]) = lines_of (y :: c)) by (apply IH; [discriminate|exact Hl]).
-    change ((x :: y :: c) ++ [NL]) with (x :: ((y :: c) ++ [NL])).
-    cbn [lines_of]. cbn [lines_of] in IH'. rewrite IH'. reflexivity.
-Qed.
-
-(* every newline is preceded by a byte that is not a newline: no empty lines *)
-Definition no_blank (t : bytes) : Prop :=
-  forall a b, t = a ++ NL :: b -> a <> [] /\ last a 0%N <> NL.
-
-Definition aligned (b : bytes) : Prop := b = [] \/ exists b0, b = b0 ++ [NL].
-
-Lemma last_app_cons (a : bytes) x b d : last (a ++ x :: b) d = last (x :: b) d.
-Proof.
-  induction a as [|y a IH]; [reflexivity|]. cbn [app]. 
-  change (last (y :: a ++ x :: b) d) with (match a ++ x :: b with [] => y | _ => last (a ++ x :: b) d end).
-  destruct (a ++ x :: b) eqn:E; [destruct a; discriminate|]. exact IH.
-Qed.
-
-Lemma no_blank_tail c t : no_blank (c ++ NL :: t) -> no_blank t.
-Proof.
-  intros H a b E. specialize (H (c ++ NL :: a) b). rewrite E, <- app_assoc in H. specialize (H eq_refl).
-  destruct H as [_ H]. destruct a as [|y a].
-  - exfalso. apply H. rewrite last_app_cons. reflexivity.
-  - split; [discriminate|]. rewrite last_app_cons in H.
-    change (last (NL :: y :: a) 0%N) with (last (y :: a) 0%N) in H. exact H.
-Qed.
-
-Definition ent_fine (e : hent) : Prop :=
-  h_skipped e = [NL] \/ (h_skipped e = [] /\ aligned (h_content e)).
-
-Lemma lines_of_history hs : forall cur t,
-  hist_stream hs ++ cur = t -> no_blank t -> Forall ent_fine hs ->
-  flat_map (fun e => lines_of (h_content e)) hs ++ lines_of cur = lines_of t.
-Proof.
-  induction hs as [|e hs IH]; intros cur t E Hb Hf; [cbn in *; subst; reflexivity|].
-  inversion Hf as [|? ? He Hf']; subst. unfold hist_stream in *. cbn [map concat flat_map] in *.
-  rewrite <- !app_assoc in *. destruct He as [Hs|[Hs [Hc|[c0 Hc]]]]; rewrite Hs in *; cbn [app] in *.
-  - destruct (Hb _ _ eq_refl) as [Hne Hl].
-    rewrite lines_of_cut, lines_of_unterminated by assumption. f_equal.
-    apply IH; [reflexivity| |exact Hf']. eapply no_blank_tail, Hb.
-  - rewrite Hc in *. cbn [app lines_of] in *. apply IH; auto.
-  - rewrite Hc in *. rewrite <- !app_assoc in *. cbn [app] in *.
-    match goal with |- _ = lines_of (c0 ++ NL :: ?r) => rewrite (lines_of_cut c0 r) end.
-    f_equal. apply IH; [reflexivity| |exact Hf']. eapply no_blank_tail, Hb.
-Qed.
-
-(* executable forms of the hypotheses *)
-Fixpoint nb (prev_nl : bool) (t : bytes) : bool :=
-  match t with
-  | [] => true
-  | x :: r => if (x =? NL)%N then negb prev_nl && nb true r else nb false r
-  end.
-Definition no_blank_b (t : bytes) : bool := nb true t.
-
-Definition aligned_b (b : bytes) : bool :=
-  match b with [] => true | _ => (last b 0 =? NL)%N end.
-
-Lemma nb_sound t : forall q a b, nb q t = true -> t = a ++ NL :: b ->
-  (a = [] -> q = false) /\ (a <> [] -> last a 0%N <> NL).
-Proof.
-  induction t as [|x r IH]; intros q a b H E; [destruct a; discriminate|].
-  cbn [nb] in H. destruct a as [|y a]; cbn [app] in E; inversion E; subst.
-  - rewrite N.eqb_refl in H. apply andb_true_iff in H as [H _]. split; [intros _; destruct q; [discriminate|reflexivity]|congruence].
-  - split; [discriminate|]. intros _.
-    destruct (y =? NL)%N eqn:Ey.
-    + apply andb_true_iff in H as [_ H]. destruct (IH true a b H eq_refl) as [H1 H2].
-      destruct a as [|z a]; [specialize (H1 eq_refl); discriminate|].
-      change (last (y :: z :: a) 0%N) with (last (z :: a) 0%N). apply H2. discriminate.
-    + destruct (IH false a b H eq_refl) as [H1 H2].
-      destruct a as [|z a]; [cbn; apply N.eqb_neq, Ey|].
-      change (last (y :: z :: a) 0%N) with (last (z :: a) 0%N). apply H2. discriminate.
-Qed.
-
-Lemma no_blank_b_sound t : no_blank_b t = true -> no_blank t.
-Proof.
-  intros H a b E. destruct (nb_sound t true a b H E) as [H1 H2].
-  assert (a <> []) by (intros ->; specialize (H1 eq_refl); discriminate). auto.
-Qed.
-
-Lemma aligned_b_sound b : aligned_b b = true -> aligned b.
-Proof.
-  unfold aligned_b, aligned. destruct b as [|x r]; [auto|]. intros H. right.
-  destruct (@exists_last _ (x :: r)) as (b0 & z & E); [discriminate|]. rewrite E in *.
-  rewrite last_last in H. apply N.eqb_eq in H. subst. eauto.
-Qed.
-
-Lemma aligned_suffix a b : aligned (a ++ b) -> aligned b.
-Proof.
-  intros [H|[c H]]; [apply app_eq_nil in H as [_ ->]; left; reflexivity|].
-  destruct b as [|x r]; [left; reflexivity|]. right.
-  destruct (@exists_last _ (x :: r)) as (b0 & z & E); [discriminate|]. rewrite E in *.
-  rewrite app_assoc in H. apply app_inj_tail in H as [_ ->]. eauto.
-Qed.
-
-Lemma aligned_app a b : aligned a -> aligned b -> aligned (a ++ b).
-Proof.
-  intros Ha [->|[b0 ->]]; [rewrite app_nil_r; exact Ha|]. right. exists (a ++ b0). rewrite app_assoc. reflexivity.
-Qed.
-
-Definition open_aligned (h : list hent) : Prop :=
-  Forall (fun e => h_kind e = ROpen -> aligned (h_content e)) h.
-
-Fixpoint writes_aligned (ops : list op) : bool :=
-  match ops with
-  | [] => true
-  | OWrite _ p :: r => aligned_b p && writes_aligned r
-  | _ :: r => writes_aligned r
-  end.
-
-Lemma reopen_aligned s st :
-  aligned (rf_cur st) -> open_aligned (rf_hist st) ->
-  aligned (rf_cur (rf_reopen s st)) /\ open_aligned (rf_hist (rf_reopen s st)).
-Proof.
-  intros Ha Ho. unfold rf_reopen. cbn [rf_pos rf_max]. destruct (_ <? _); cbn; [auto|].
-  split; [left; reflexivity|]. apply Forall_app. split; [exact Ho|]. constructor; [auto|constructor].
-Qed.
-
-Lemma run_aligned max : 0 <= max -> forall ops st rets st' rets',
-  ginv max st -> aligned (rf_cur st) -> open_aligned (rf_hist st) -> writes_aligned ops = true ->
-  run st rets ops = Some (st', rets') ->
-  aligned (rf_cur st') /\ open_aligned (rf_hist st').
-Proof.
-  intros Hm. induction ops as [|o r IH]; intros st rets st' rets' G Ha Ho Hw H; cbn [run writes_aligned] in *.
-  - inversion H; subst. auto.
-  - destruct o as [clk p| | |s].
-    + apply andb_true_iff in Hw as [Hp Hw]. apply aligned_b_sound in Hp.
-      destruct (ginv_write max clk st p G) as (st1 & hs & Hr & G1 & Hpost). rewrite Hr in H.
-      destruct (after_stat_winv st (g_rinv _ _ G)) as [_ Ec].
-      destruct (after_stat_fields st) as (_ & _ & _ & Eh & _). destruct Hpost.
-      eapply IH; [exact G1| | |exact Hw|exact H].
-      * apply (aligned_suffix (hist_stream hs)). rewrite wp_stream0, Ec. apply aligned_app; assumption.
-      * unfold open_aligned. rewrite wp_hist0, Eh. apply Forall_app. split; [exact Ho|].
-        eapply Forall_impl; [|exact wp_kind0]. intros e He Hk. congruence.
-    + eapply IH; [apply ginv_remove, G| | |exact Hw|exact H]; unfold ext_remove; destruct (rf_exists st); cbn; auto. left; reflexivity.
-    + eapply IH; [apply ginv_move, G| | |exact Hw|exact H]; unfold ext_move; destruct (rf_exists st); cbn; auto. left; reflexivity.
-    + destruct (reopen_aligned s st Ha Ho) as [Ha' Ho'].
-      eapply IH; [apply ginv_reopen; [exact Hm|exact G]|exact Ha'|exact Ho'|exact Hw|exact H].
-Qed.
-
-Lemma flat_map_contents (hs : list hent) :
-  flat_map lines_of (map snd (hist_files hs)) = flat_map (fun e => lines_of (h_content e)) hs.
-Proof.
-  unfold hist_files. induction hs as [|e hs IH]; [reflexivity|].
-  cbn [map flat_map snd]. f_equal. exact IH.
-Qed.
-
-(* outside the finding classes the files hold exactly the lines written, in order, each once *)
-Lemma lines_kept max s init ops st rets :
-  0 <= max -> no_ext ops = true ->
-  aligned_b init = true -> writes_aligned ops = true -> no_blank_b (init ++ written_of ops) = true ->
-  run (rf_open max s init) [] ops = Some (st, rets) ->
-  has_drop (rf_hist st) = false -> secs_distinct (rf_hist st) = true ->
-  rf_rot st = hist_files (rf_hist st) /\
-  flat_map lines_of (map snd (rf_rot st)) ++ lines_of (rf_cur st) = lines_of (init ++ written_of ops).
-Proof.
-  intros Hm Hn Hi Hw Hb H Hd Hs.
-  destruct (run_total max Hm ops _ [] (ginv_open max s init Hm)) as (st' & Hrun & G).
-  rewrite H in Hrun. inversion Hrun; subst st'. clear Hrun.
-  pose proof (rot_is_history max st G Hs) as Hrot. split; [exact Hrot|].
-  rewrite Hrot, flat_map_contents.
-  apply lines_of_history.
-  - eapply bytes_accounted; eauto.
-  - apply no_blank_b_sound, Hb.
-  - assert (Hopen : aligned (rf_cur (rf_open max s init)) /\ open_aligned (rf_hist (rf_open max s init))).
-    { unfold rf_open. apply reopen_aligned; cbn; [apply aligned_b_sound, Hi|constructor]. }
-    destruct Hopen as [Ha0 Ho0].
-    destruct (run_aligned max Hm ops _ _ _ _ (ginv_open max s init Hm) Ha0 Ho0 Hw H) as [_ Ho].
-    pose proof (no_drop_skipped max st G Hd) as Hk.
-    unfold open_aligned in Ho. rewrite Forall_forall in *. intros e He.
-    destruct (Hk e He) as [[_ Hsk]|[Hkd Hsk]]; [left; exact Hsk|right; split; [exact Hsk|apply Ho; assumption]].
-Qed.
-
-(* ---- the channel: Send returns whenever the destination could be opened ---- *)
-Lemma wl_never_blocks max : 0 <= max -> forall es w,
-  wl_alive w = true -> wl_blocked w = false -> ginv max (wl_rf w) ->
-  exists w', wl_run w es = Some w' /\ wl_alive w' = true /\ wl_blocked w' = false.
-Proof.
-  intros Hm. induction es as [|e es IH]; intros w Ha Hb G; cbn [wl_run]; [eauto|].
-  assert (Hfl : forall s w0, wl_alive w0 = true -> wl_blocked w0 = false -> ginv max (wl_rf w0) ->
-           exists w1, wl_flush s w0 = Some w1 /\ wl_alive w1 = true /\ wl_blocked w1 = false /\ ginv max (wl_rf w1)).
-  { intros s w0 Ha0 Hb0 G0. unfold wl_flush. destruct (wl_buf w0) as [|l ls] eqn:Eb; [eauto|].
-    destruct (ginv_write max (fun _ => s) (wl_rf w0) (concat (l :: ls)) G0) as (st' & hs & Hr & G' & _).
-    rewrite Hr. eexists. split; [reflexivity|]. cbn. auto. }
-  unfold wl_step. rewrite Ha, Hb. cbn [negb].
-  destruct e as [s line|s].
-  - cbn zeta. destruct (_ <? FLUSH_BYTES).
-    + apply IH; cbn; auto.
-    + destruct (Hfl s (mkWL true (wl_rf w) (wl_buf w ++ [line]) (wl_len w + zlen line) false)) as (w1 & -> & A1 & B1 & G1); cbn; auto.
-  - destruct (Hfl s w Ha Hb G) as (w1 & -> & A1 & B1 & G1). auto.
-Qed.
-
-Lemma wl_openable_never_blocks max s init es :
-  0 <= max -> exists w, wl_run (wl_new max true s init) es = Some w /\ wl_blocked w = false.
-Proof.
-  intros Hm. destruct (wl_never_blocks max Hm es (wl_new max true s init)) as (w & H & _ & B); cbn; auto.
-  - apply ginv_open, Hm.
-  - eauto.
-Qed.
-
-(* ... and blocks for ever when it could not *)
-Lemma wl_unopenable_blocks max s init es line s' :
-  exists w, wl_run (wl_new max false s init) (ESend s' line :: es) = Some w /\ wl_blocked w = true.
-Proof.
-  cbn [wl_new wl_run wl_step wl_alive negb].
-  generalize (mkRF max 0 false [] [] [] [] []). intros st0. generalize (@nil bytes), 0.
-  induction es as [|e es IH]; intros buf len; cbn [wl_run]; [eauto|].
-  cbn [wl_step wl_alive negb]. destruct e; apply IH.
-Qed.
-
-(* ---- statements used by Properties.v ---- *)
-Lemma write_total clk st p :
-  rinv st -> exists st', rf_write clk st p = WOk st' (zlen p) /\ rinv st' /\ rf_max st' = rf_max st.
-Proof.
-  intros H. destruct (rf_write_ok clk st p H) as (st' & hs & Hr & Hp). exists st'. split; [exact Hr|].
-  destruct Hp. split; [apply winv_rinv; assumption|]. rewrite wp_max0. apply after_stat_fields.
-Qed.
-
-Lemma history_total max s init ops :
-  0 <= max -> exists st, run (rf_open max s init) [] ops = Some (st, written_lens ops) /\ rinv st.
-Proof.
-  intros Hm. destruct (run_total max Hm ops _ [] (ginv_open max s init Hm)) as (st & H & G).
-  exists st. split; [exact H|apply G].
-Qed.
-
-(* one Write, whatever happened to the file before: the bytes of p are in the active file or in
-   the files this call rotated away, in order, except one skipped byte per rotation *)
-Lemma write_accounts clk st p :
-  rinv st ->
-  exists st' hs, rf_write clk st p = WOk st' (zlen p) /\
-    rf_hist st' = rf_hist st ++ hs /\
-    hist_stream hs ++ rf_cur st' = rf_cur st ++ p /\
-    Forall (fun e => zlen (h_content e) <= rf_max st /\
-                     (h_kind e = RSplit /\ h_skipped e = [NL] \/ h_kind e = RDrop /\ exists x, h_skipped e = [x])) hs /\
-    map h_sec hs = map clk (seq 0 (length hs)).
-Proof.
-  intros H. destruct (rf_write_ok clk st p H) as (st' & hs & Hr & Hp). exists st', hs. split; [exact Hr|].
-  destruct (after_stat_winv st H) as [_ Ec]. destruct (after_stat_fields st) as (Em & _ & _ & Eh & _).
-  destruct Hp. rewrite Eh in wp_hist0. rewrite Ec in wp_stream0. rewrite Em in wp_ok0.
-  repeat split; auto.
-  rewrite Forall_forall in *. intros e He. destruct (wp_ok0 e He) as [Hl Hk]. specialize (wp_kind0 e He).
-  split; [exact Hl|]. destruct (h_kind e); [left|right|congruence]; auto.
-Qed.
-
-Lemma rotated_never_replaced max s init ops st rets :
-  0 <= max -> run (rf_open max s init) [] ops = Some (st, rets) ->
-  secs_distinct (rf_hist st) = true -> rf_rot st = hist_files (rf_hist st).
-Proof.
-  intros Hm H Hs. destruct (run_total max Hm ops _ [] (ginv_open max s init Hm)) as (st' & Hrun & G).
-  rewrite H in Hrun. inversion Hrun; subst st'. eapply rot_is_history; eauto.
-Qed.
-
-(* ---- witnesses of the three shortcomings ---- *)
-Definition mkline (c n : N) : bytes := 123%N :: repeat c (N.to_nat n) ++ [125%N; NL].  (* n + 3 bytes *)
-Definition clk0 : nat -> N := fun _ => 0%N.
-
-(* (a) max 1024: a 1000-byte line, then a 100-byte line *)
-Definition wit_a : list op := [OWrite clk0 (mkline 97 997); OWrite clk0 (mkline 98 97)].
-(* (b) max 1024: one batch of 25 lines of 100 bytes, one clock reading *)
-Definition wit_b : list op :=
-  [OWrite clk0 (concat (map (fun i => mkline (97 + N.of_nat i) 97) (seq 0 25)))].
-
-Definition files_lines (st : rf) : list bytes :=
-  flat_map lines_of (map snd (rf_rot st)) ++ lines_of (rf_cur st).
-
-Lemma neq_by_dec (a b : list bytes) :
-  (if list_eq_dec (list_eq_dec N.eq_dec) a b then true else false) = false -> a <> b.
-Proof. destruct (list_eq_dec (list_eq_dec N.eq_dec) a b); [discriminate|auto]. Qed.
-
-Lemma wit_a_result :
-  exists st rets, run (rf_open 1024 0 []) [] wit_a = Some (st, rets) /\
-    no_ext wit_a = true /\ writes_aligned wit_a = true /\ no_blank_b (written_of wit_a) = true /\
-    secs_distinct (rf_hist st) = true /\ has_drop (rf_hist st) = true /\
-    rf_cur st = tl (mkline 98 97) /\
-    files_lines st <> lines_of (written_of wit_a).
-Proof.
-  eexists. eexists. split; [vm_compute; reflexivity|].
-  repeat split; try (vm_compute; reflexivity).
-  apply neq_by_dec. vm_compute. reflexivity.
-Qed.
-
-Lemma wit_b_result :
-  exists st rets, run (rf_open 1024 0 []) [] wit_b = Some (st, rets) /\
-    no_ext wit_b = true /\ writes_aligned wit_b = true /\ no_blank_b (written_of wit_b) = true /\
-    has_drop (rf_hist st) = false /\ secs_distinct (rf_hist st) = false /\
-    (length (rf_hist st) = 2 /\ length (rf_rot st) = 1)%nat /\
-    files_lines st <> lines_of (written_of wit_b).
-Proof.
-  eexists. eexists. split; [vm_compute; reflexivity|].
-  repeat split; try (vm_compute; reflexivity).
-  apply neq_by_dec. vm_compute. reflexivity.
-Qed.
-
-(* the full statement of the property on the model *)
-Definition full_lines : Prop := forall max s init ops st rets,
-  1024 <= max -> no_ext ops = true ->
-  aligned_b init = true -> writes_aligned ops = true -> no_blank_b (init ++ written_of ops) = true ->
-  run (rf_open max s init) [] ops = Some (st, rets) ->
-  files_lines st = lines_of (init ++ written_of ops).
-
-Definition full_send : Prop := forall max openable s init es w,
-  1024 <= max -> wl_run (wl_new max openable s init) es = Some w -> wl_blocked w = false.
-
-Lemma full_lines_refuted_by ops :
-  (exists st rets, run (rf_open 1024 0 []) [] ops = Some (st, rets) /\
-     no_ext ops = true /\ writes_aligned ops = true /\ no_blank_b (written_of ops) = true /\
-     files_lines st <> lines_of (written_of ops)) -> ~ full_lines.
-Proof.
-  intros (st & rets & Hr & H1 & H2 & H3 & Hne) F. apply Hne.
-  apply (F 1024 0%N [] ops st rets); auto. lia.
-Qed.
-
-Lemma full_lines_refuted_a : ~ full_lines.
-Proof.
-  apply (full_lines_refuted_by wit_a). destruct wit_a_result as (st & rets & H). exists st, rets. tauto.
-Qed.
-
-Lemma full_lines_refuted_b : ~ full_lines.
-Proof.
-  apply (full_lines_refuted_by wit_b). destruct wit_b_result as (st & rets & H). exists st, rets. tauto.
-Qed.
-
-Lemma full_send_refuted : ~ full_send.
-Proof.
-  intros F. destruct (wl_unopenable_blocks 1024 0%N [] [] [123; 125; NL]%N 0%N) as (w & Hr & Hb).
-  rewrite (F 1024 false 0%N [] _ w ltac:(lia) Hr) in Hb. discriminate.
-Qed.
-
-Lemma full_refuted : ~ (full_lines /\ full_send).
-Proof. intros [H _]. exact (full_lines_refuted_a H). Qed.
-
-(* ---- the scan: the index loop of the Go code and the structural split agree ---- *)
-Lemma scan_down_spec p : forall j,
-  (j < length p)%nat ->
-  match split_last_nl (firstn j (tl p)) with
-  | Some (a, _) => scan_down p j = S (length a)
-  | None => scan_down p j = O
-  end.
-Proof.
-  destruct p as [|x0 p]; [cbn; lia|]. cbn [tl length].
-  induction j as [|j IH]; intros Hj; [reflexivity|].
-  cbn [scan_down]. change (nth (S j) (x0 :: p) 0%N) with (nth j p 0%N).
-  assert (Hlt : (j < length p)%nat) by lia.
-  assert (E : firstn (S j) p = firstn j p ++ [nth j p 0%N]).
-  { clear -Hlt. revert j Hlt. induction p as [|y p IHp]; intros j Hlt; [cbn in Hlt; lia|].
-    destruct j; [reflexivity|]. cbn [firstn nth app]. f_equal. apply IHp. cbn in Hlt. lia. }
-  rewrite E. specialize (IH ltac:(lia)).
-  assert (Happ : forall l y, split_last_nl (l ++ [y]) =
-            if (y =? NL)%N then Some (l, [])
-            else match split_last_nl l with Some (a, b) => Some (a, b ++ [y]) | None => None end).
-  { clear. induction l as [|z l IHl]; intros y; cbn [app split_last_nl].
-    - destruct (y =? NL)%N; reflexivity.
-    - rewrite IHl. destruct (y =? NL)%N; [reflexivity|]. destruct (split_last_nl l) as [[a b]|]; [reflexivity|].
-      destruct (z =? NL)%N; reflexivity. }
-  rewrite Happ. destruct (nth j p 0%N =? NL)%N eqn:En.
-  - rewrite firstn_length. f_equal. lia.
-  - destruct (split_last_nl (firstn j p)) as [[a b]|]; exact IH.
+  2:{ eexists. exists []. split; [reflexivity|]. apply final_post; [exact Hinv|left; lia]. }
+  pose proof (window_scan_spec p (rf_max st - rf_pos st) ltac:(lia)) as Hs.
+  unfold measure in Hf.
+  destruct (window_scan p (rf_max st - rf_pos st)) as [a rest| |]; [| |contradiction].
+  - (* a newline inside the window *)
+    destruct Hs as (Hp & Hne & Hle).
+    assert (Hlen : length p = (length a + 1 + length rest)%nat)
+      by (rewrite Hp, app_length; cbn [length]; lia).
+    set (st1 := rotate (clk i) [NL] RSplit (put st a)).
+    destruct (IH (S i) st1 rest (w + zlen a + 1)) as (st' & hs & Hr & Hpost).
+    { unfold winv, st1. cbn. auto. }
+    { unfold measure, st1. cbn [rotate rf_pos]. cbn. lia. }
+    exists st'. eexists. split.
+    + rewrite Hr. f_equal. unfold zlen. lia.
+    + eapply (post_cons clk i st (put st a) st' a [NL] RSplit rest hs p); try reflexivity; auto.
+      * rewrite Hp. reflexivity.
+      * intros _. left. rewrite zlen_app. lia.
+      * intros _. left. reflexivity.
+  - destruct (0 <? rf_pos st) eqn:Ep.
+    + (* no newline inside the window, the file is not empty: fresh file, nothing skipped *)
+      set (st1 := rotate (clk i) [] RFresh st).
+      destruct (IH (S i) st1 p w) as (st' & hs & Hr & Hpost).
+      { unfold winv, st1. cbn. auto. }
+      { unfold measure, st1. cbn [rotate rf_pos]. cbn. lia. }
+      exists st'. eexists. split; [exact Hr|].
+      eapply (post_cons clk i st st st' [] [] RFresh p hs p); try reflexivity; auto.
+      * rewrite app_nil_r. reflexivity.
+      * rewrite app_nil_r. auto.
+      * intros Ha. right. cbn [h_skipped h_content]. rewrite app_nil_r. auto.
+    + (* empty file *)
+      assert (Hcur : rf_cur st = []) by (apply zlen0_nil; pose proof (zlen_nonneg (rf_cur st)); lia).
+      destruct (split_first_nl p) as [[a b]|] eqn:Ef.
+      * apply split_first_nl_some in Ef as [Hp Hn].
+        assert (Hlen : length p = (length a + 1 + length b)%nat)
+          by (rewrite Hp, app_length; cbn [length]; lia).
+        set (st1 := rotate (clk i) [NL] RLong (put st a)).
+        destruct (IH (S i) st1 b (w + zlen a + 1)) as (st' & hs & Hr & Hpost).
+        { unfold winv, st1. cbn. auto. }
+        { unfold measure, st1. cbn [rotate rf_pos]. cbn. lia. }
+        exists st'. eexists. split.
+        -- rewrite Hr. f_equal. unfold zlen. lia.
+        -- eapply (post_cons clk i st (put st a) st' a [NL] RLong b hs p); try reflexivity; auto.
+           ++ rewrite Hp. reflexivity.
+           ++ intros _. right. rewrite Hcur. exact Hn.
+           ++ intros _. left. reflexivity.
+      * apply split_first_nl_none in Ef.
+        eexists. exists []. split; [reflexivity|]. apply final_post; [exact Hinv|right; auto].
 Qed.
